@@ -705,11 +705,16 @@ def run_check(prop, tier, base_seed, only_jit=None):
     w_on = max(2, ncpu // 4) if (want_on and want_off) else ncpu
     w_off = max(2, ncpu - w_on) if (want_on and want_off) else ncpu
     common = {"property": prop, "mode": "runs", "tier": tier, "base_seed": base_seed, "run_timeout": budget.get("run_timeout", 120), "survey": bool(os.environ.get("VERIF_SURVEY"))}
+    hs_runs = int(budget.get("hashseed_runs", 0)) if only_jit is None else 0
     if tier == "quick":
         if want_off:
             zs.append(spawn_zygote(dict(common, workers=w_off, max_runs=budget["off_runs"], offset=0, stride=2, budget_s=budget["timeout"] - 60), False))
         if want_on:
             zs.append(spawn_zygote(dict(common, workers=w_on, max_runs=budget["on_runs"], offset=1, stride=2, budget_s=budget["timeout"] - 60), True))
+        if hs_runs:
+            # configuration axis: the same profile under another PYTHONHASHSEED (set/dict iteration
+            # order inside uxarray, e.g. Grid.chunk iterating a set of variable names)
+            zs.append(spawn_zygote(dict(common, workers=2, max_runs=hs_runs, offset=10**6, stride=1, budget_s=budget["timeout"] - 60), False, hashseed=4242))
         wall_cap = budget["timeout"] + 300
     else:
         b = float(os.environ.get("VERIF_BUDGET_S", budget["budget_s"]))
@@ -717,6 +722,8 @@ def run_check(prop, tier, base_seed, only_jit=None):
             zs.append(spawn_zygote(dict(common, workers=w_off, offset=0, stride=2, budget_s=b, shrink_budget_s=300), False))
         if want_on:
             zs.append(spawn_zygote(dict(common, workers=w_on, offset=1, stride=2, budget_s=b, shrink_budget_s=300), True))
+        if hs_runs:
+            zs.append(spawn_zygote(dict(common, workers=2, offset=10**6, stride=1, budget_s=b, shrink_budget_s=300), False, hashseed=4242))
         wall_cap = b + 1200
     allrecs = []
     harness_errors = []
@@ -734,8 +741,10 @@ def run_check(prop, tier, base_seed, only_jit=None):
             harness_errors.append(f"zygote jit={z['jit']} failed rc={z['rc']}: {err}")
         if not any(r.get("type") == "done" for r in recs):
             harness_errors.append(f"zygote jit={z['jit']} did not finish")
+        hs = next((r.get("hashseed") for r in recs if r.get("type") == "zygote"), None)
         for r in recs:
             r["jit"] = z["jit"]
+            r["hashseed"] = hs
         allrecs += recs
         cleanup_jobfiles(z, keep_log=bool(harness_errors))
     for r in allrecs:
@@ -838,12 +847,13 @@ def write_evidence(prop, tier, base_seed, recs, runs, viols, known_hit, harness_
     par = {}
     clock = {"reads": 0, "span_s": 0.0}
     avoid_runs = 0
-    cfgs = {"jit_on": 0, "jit_off": 0}
+    cfgs = {"jit_on": 0, "jit_off": 0, "by_pythonhashseed": {}}
     interleavings = set()
     failed_ops = 0
     for r in ok:
         c = r.get("cov", {})
         cfgs["jit_on" if r.get("jit") else "jit_off"] += 1
+        cfgs["by_pythonhashseed"][str(r.get("hashseed"))] = cfgs["by_pythonhashseed"].get(str(r.get("hashseed")), 0) + 1
         if c.get("nontrivial"):
             fps[c.get("fingerprint")] = fps.get(c.get("fingerprint"), 0) + 1
         for k, n in (c.get("perturbations") or {}).items():
